@@ -150,64 +150,71 @@ Fixpoint find_pos (f : token -> bool) (l : word) : option nat :=
   | a :: r => if f a then Some O else match find_pos f r with Some n => Some (S n) | None => None end
   end.
 
+(** body of the first while loop once [find_position] has put [i] on a token equal
+    to [pair.first]; returns the next [i] and the statistics *)
+Definition old_body (p : pair) (idx : nat) (k : N) (old : word) (i : nat) (st : stats) : result (nat * stats) :=
+  let len := length old in
+  (* if i == old_word.len() - 1 || old_word[i + 1] != pair.second { i += 1; continue; } *)
+  l1 <- usub len 1 ;;
+  c1 <- (if Nat.eqb i l1 then Ok true
+         else x <- at_ old (i + 1) ;; Ok (negb (tok_eqb x (snd p)))) ;;
+  if c1 then Ok ((i + 1)%nat, st)
+  else
+    (* if i > 0 { prev_pair = (old[i-1], old[i]) … } *)
+    st1 <- (if Nat.ltb 0 i then
+              j <- usub i 1 ;; a <- at_ old j ;; b <- at_ old i ;; st_dec st (a, b) idx k
+            else Ok st) ;;
+    (* if i < len - 2 && (old[i+2] != first || i >= len - 3 || old[i+3] != second) { next_pair = (old[i+1], old[i+2]) … } *)
+    l2 <- usub len 2 ;;
+    c2 <- (if Nat.ltb i l2 then
+             x2 <- at_ old (i + 2) ;;
+             if negb (tok_eqb x2 (fst p)) then Ok true
+             else l3 <- usub len 3 ;;
+                  if Nat.leb l3 i then Ok true
+                  else x3 <- at_ old (i + 3) ;; Ok (negb (tok_eqb x3 (snd p)))
+           else Ok false) ;;
+    st2 <- (if c2 then a <- at_ old (i + 1) ;; b <- at_ old (i + 2) ;; st_dec st1 (a, b) idx k
+            else Ok st1) ;;
+    Ok ((i + 2)%nat, st2).                                             (* i += 2 *)
+
 (** first while loop: walk the old word, decrement the neighbours of every match *)
 Fixpoint old_loop (fuel : nat) (p : pair) (idx : nat) (k : N) (old : word) (i : nat) (st : stats) : result stats :=
   match fuel with
   | O => Err EFuel
   | S fuel' =>
-    let len := length old in
-    if Nat.ltb i len then                                              (* while i < old_word.len() *)
+    if Nat.ltb i (length old) then                                     (* while i < old_word.len() *)
       match find_pos (fun t => tok_eqb t (fst p)) (skipn i old) with   (* old_word[i..].iter().find_position(== first) *)
       | None => Ok st                                                  (* else break *)
-      | Some start =>
-        let i := (i + start)%nat in
-        (* if i == old_word.len() - 1 || old_word[i + 1] != pair.second { i += 1; continue; } *)
-        l1 <- usub len 1 ;;
-        c1 <- (if Nat.eqb i l1 then Ok true
-               else x <- at_ old (i + 1) ;; Ok (negb (tok_eqb x (snd p)))) ;;
-        if c1 then old_loop fuel' p idx k old (i + 1) st
-        else
-          (* if i > 0 { prev_pair = (old[i-1], old[i]) … } *)
-          st1 <- (if Nat.ltb 0 i then
-                    j <- usub i 1 ;; a <- at_ old j ;; b <- at_ old i ;; st_dec st (a, b) idx k
-                  else Ok st) ;;
-          (* if i < len - 2 && (old[i+2] != first || i >= len - 3 || old[i+3] != second) { next_pair = (old[i+1], old[i+2]) … } *)
-          l2 <- usub len 2 ;;
-          c2 <- (if Nat.ltb i l2 then
-                   x2 <- at_ old (i + 2) ;;
-                   if negb (tok_eqb x2 (fst p)) then Ok true
-                   else l3 <- usub len 3 ;;
-                        if Nat.leb l3 i then Ok true
-                        else x3 <- at_ old (i + 3) ;; Ok (negb (tok_eqb x3 (snd p)))
-                 else Ok false) ;;
-          st2 <- (if c2 then a <- at_ old (i + 1) ;; b <- at_ old (i + 2) ;; st_dec st1 (a, b) idx k
-                  else Ok st1) ;;
-          old_loop fuel' p idx k old (i + 2) st2                       (* i += 2 *)
+      | Some start =>                                                  (* i += start *)
+        r <- old_body p idx k old (i + start) st ;; old_loop fuel' p idx k old (fst r) (snd r)
       end
     else Ok st
   end.
+
+(** body of the second while loop, [i] on a token equal to [merged] *)
+Definition new_body (m : token) (idx : nat) (k : N) (nw : word) (i : nat) (st : stats) : result (nat * stats) :=
+  let len := length nw in
+  (* if i > 0 { prev_pair = (new[i-1], new[i]); entry(prev_pair)… } *)
+  st1 <- (if Nat.ltb 0 i then
+            j <- usub i 1 ;; a <- at_ nw j ;; b <- at_ nw i ;; Ok (st_add st (a, b) idx k)
+          else Ok st) ;;
+  (* if i < new_word.len() - 1 && new_word[i + 1] != merged { next_pair = (new[i], new[i+1]); entry(next_pair)… } *)
+  l1 <- usub len 1 ;;
+  c <- (if Nat.ltb i l1 then x <- at_ nw (i + 1) ;; Ok (negb (tok_eqb x m)) else Ok false) ;;
+  st2 <- (if c then a <- at_ nw i ;; b <- at_ nw (i + 1) ;; Ok (st_add st1 (a, b) idx k)
+          else Ok st1) ;;
+  Ok ((i + 1)%nat, st2).                                               (* i += 1 *)
 
 (** second while loop: walk the new word, increment the neighbours of every merged token *)
 Fixpoint new_loop (fuel : nat) (m : token) (idx : nat) (k : N) (nw : word) (i : nat) (st : stats) : result stats :=
   match fuel with
   | O => Err EFuel
   | S fuel' =>
-    let len := length nw in
-    if Nat.ltb i len then
+    if Nat.ltb i (length nw) then
       match find_pos (fun t => tok_eqb t m) (skipn i nw) with
       | None => Ok st
       | Some start =>
-        let i := (i + start)%nat in
-        (* if i > 0 { prev_pair = (new[i-1], new[i]); entry(prev_pair)… } *)
-        st1 <- (if Nat.ltb 0 i then
-                  j <- usub i 1 ;; a <- at_ nw j ;; b <- at_ nw i ;; Ok (st_add st (a, b) idx k)
-                else Ok st) ;;
-        (* if i < new_word.len() - 1 && new_word[i + 1] != merged { next_pair = (new[i], new[i+1]); entry(next_pair)… } *)
-        l1 <- usub len 1 ;;
-        c <- (if Nat.ltb i l1 then x <- at_ nw (i + 1) ;; Ok (negb (tok_eqb x m)) else Ok false) ;;
-        st2 <- (if c then a <- at_ nw i ;; b <- at_ nw (i + 1) ;; Ok (st_add st1 (a, b) idx k)
-                else Ok st1) ;;
-        new_loop fuel' m idx k nw (i + 1) st2                          (* i += 1 *)
+        r <- new_body m idx k nw (i + start) st ;; new_loop fuel' m idx k nw (fst r) (snd r)
       end
     else Ok st
   end.
